@@ -218,7 +218,7 @@ def parseExchange (j : Json) : ExchangeAns :=
   | none => .failed
   | some x => match jS x "kind" with
     | "ok" => .ok (L (jS x "id")) (L (jS x "rt"))
-    | "4xx" | "invalid_grant" => .rejected4xx
+    | "4xx" | "invalid_grant" | "invalid_client" | "forbidden" => .rejected4xx   -- any 4xx of the token endpoint (400, 401, 403)
     | _ => .failed
 
 def parseRefresh (j : Json) : RefreshAns :=
